@@ -38,6 +38,9 @@ type Target struct {
 
 var targets []*Target
 
+// Seed is VERIF_SEED; it only drives the supplementary random values of C19.
+var Seed int
+
 // Register is called from the init functions of the generated reg.go files.
 func Register(t *Target) {
 	t.Spec = &spec.Msg{}
@@ -130,6 +133,7 @@ func Main() {
 	shard := flag.String("shard", "0/1", "i/n")
 	only := flag.String("only", "", "restrict to a case id")
 	replay := flag.String("replay", "", "replay file")
+	flag.IntVar(&Seed, "seed", 0, "VERIF_SEED")
 	flag.Parse()
 	if *replay != "" {
 		os.Exit(replayFile(*replay))
